@@ -4,7 +4,7 @@
    constructors) exactly.  Oracle answers (brentq / quadratic root) come with the case and their
    defining equation is re-evaluated here in exact arithmetic. *)
 From Coq Require Import List Arith NArith ZArith QArith Qabs Bool.
-From TLV Require Import Base.Shape Base.Tensor Model.Structure Model.StructureQ Model.StructureHooi Model.StructureWeights Model.StructureRanks Corr.Common.
+From TLV Require Import Base.Shape Base.Tensor Model.Structure Model.StructureQ Model.StructureHooi Model.StructureWeights Model.StructureRanks Model.StructureTrAls Corr.Common.
 Import ListNotations.
 Local Open Scope nat_scope.
 
@@ -25,6 +25,10 @@ Inductive op :=
 | DParafac2 (slices : list (nat * nat)) (r : nat)
 | DTrAls (shape : list nat) (spec : rspec)
 | DCmtf (shape3 : list nat) (m : nat) (spec : rspec)
+(* the loop of tensor_ring_als (Model/StructureTrAls.v): shapes of the returned cores for the run's iteration cap and decisions (answer tape:
+   callback asked to stop, convergence fired), followed - when the run's lstsq calls were logged - by the (design matrix, right-hand side)
+   shapes of the first sweep *)
+| DTrAlsLoop (shape : list nat) (spec : rspec) (tol_pos : bool) (n_iter : nat) (decisions : list (bool * bool)) (with_log : bool)
 (* control flow of the CP drivers w.r.t. normalisation; the decisions are the implementation's (answer tape) *)
 | DNorm (d : driver) (nf tol_set : bool) (ik : init_kind) (n_modes : nat) (fixed : list nat) (n_iter : nat)
         (decisions : list (bool * bool)) (obs_sweeps : bool)
@@ -95,6 +99,12 @@ Definition run (o : op) : res (list (list nat)) :=
   | DParafac2 slices r => parafac2 slices r
   | DTrAls shape spec => one (tensor_ring_als shape spec) tt_observe
   | DCmtf shape3 m spec => cmtf shape3 m spec
+  | DTrAlsLoop shape spec tol_pos n decisions with_log =>
+      rbind (validate_tr_rank shape spec RRound) (fun rank =>
+      rbind (tr_als_run shape spec tol_pos n decisions) (fun cores =>
+      if with_log then rbind (tr_als_sweep_log shape rank (seq 0 (length shape)) (trals_cores shape rank))
+                             (fun l => Ok (cores ++ flat_map (fun p => [fst p; snd p]) l))
+      else Ok cores))
   | DNorm d nf tol_set ik n_modes fixed n decisions obs_sweeps =>
       (* observables: number of executed sweeps (when the implementation reports it), "the returned state is the
          output of cp_normalize", "cp_normalize was applied at all" *)
